@@ -5,6 +5,7 @@ import (
 	"errors"
 	"math/rand"
 	"strings"
+	"sync"
 	"time"
 
 	"github.com/dgryski/go-wyhash"
@@ -99,7 +100,9 @@ type RedisPubsubPeers struct {
 	// since the pubsub subscription is still active.
 	Done chan struct{}
 
-	peers     *generics.MapWithTTL[string, string]
+	peers *generics.MapWithTTL[string, string]
+	// mut protects hash and callbacks: pubsub callbacks run concurrently
+	mut       sync.Mutex
 	hash      uint64
 	callbacks []func()
 	sub       pubsub.Subscription
@@ -111,14 +114,18 @@ type RedisPubsubPeers struct {
 func (p *RedisPubsubPeers) checkHash() {
 	peers := p.peers.SortedKeys()
 	newhash := hashList(peers)
+	p.mut.Lock()
+	var callbacks []func()
 	if newhash != p.hash {
 		p.hash = newhash
-		for _, cb := range p.callbacks {
-			go cb()
-		}
+		callbacks = append(callbacks, p.callbacks...)
+	}
+	p.mut.Unlock()
+	for _, cb := range callbacks {
+		go cb()
 	}
 	p.Metrics.Gauge("num_peers", float64(len(peers)))
-	p.Metrics.Gauge("peer_hash", float64(p.hash))
+	p.Metrics.Gauge("peer_hash", float64(newhash))
 }
 
 func (p *RedisPubsubPeers) listen(ctx context.Context, msg string) {
@@ -155,7 +162,9 @@ func (p *RedisPubsubPeers) Start() error {
 	}
 
 	p.peers = generics.NewMapWithTTL[string, string](PeerEntryTimeout, nil)
+	p.mut.Lock()
 	p.callbacks = make([]func(), 0)
+	p.mut.Unlock()
 
 	p.topic = p.PubSub.FormatTopic("peers")
 
@@ -210,10 +219,13 @@ func (p *RedisPubsubPeers) Ready() error {
 				}
 				cancel()
 			case <-logTicker.Chan():
+				p.mut.Lock()
+				hash := p.hash
+				p.mut.Unlock()
 				p.Logger.Debug().WithFields(map[string]any{
 					"ids":       p.peers.SortedKeys(),
 					"peers":     p.peers.SortedValues(),
-					"hash":      p.hash,
+					"hash":      hash,
 					"num_peers": p.peers.Length(),
 					"self":      myaddr,
 				}).Logf("peer report")
@@ -263,6 +275,8 @@ func (p *RedisPubsubPeers) GetInstanceID() (string, error) {
 }
 
 func (p *RedisPubsubPeers) RegisterUpdatedPeersCallback(callback func()) {
+	p.mut.Lock()
+	defer p.mut.Unlock()
 	p.callbacks = append(p.callbacks, callback)
 }
 
